@@ -165,6 +165,7 @@ ExpandPart(st, p) ==
   CASE p.t = "lit" -> p.k
     [] p.t = "mac" /\ p.c = "TX"           -> TxGet(st, p.k)
     [] p.t = "mac" /\ p.c = "MATCHED_VAR"  -> st.mvar
+    [] p.t = "mac" /\ p.c = "MATCHED_VAR_NAME" -> st.mvarName
     [] OTHER -> << >>
 Expand(st, ve) == FlattenSeq([i \in 1..Len(ve) |-> ExpandPart(st, ve[i])])
 
